@@ -58,7 +58,7 @@ func init() {
 				Rule: "cases 0..69 enumerate all 5913 insertion orders of 1..7 distinct keys (exhaustive for that sub-space, each under the int / difference-valued int and the reversed-int comparator); " +
 					"remaining cases are seeded: odd = skip list with 2..2000 keys in random order, all probe keys and a probe-pair sample for between-iterators incl. absent bounds and lo>hi; " +
 					"even = priority queue over 0..8 ascending inputs of length 0..50 with duplicate keys across inputs. Non-trivial: >=2 keys (skip list) or >=2 non-empty inputs sharing >=1 key (queue); distinct by hash of the insertion order / input lists",
-				MinObs: map[string]int64{"perms_checked": 5913, "between_iterators_checked": 1000, "pq_elements_checked": 1000, "lo_gt_hi_rejected": 50},
+				MinObs:      map[string]int64{"perms_checked": 5913, "between_iterators_checked": 1000, "pq_elements_checked": 1000, "lo_gt_hi_rejected": 50},
 				Assumptions: []string{"comparators are consistent total orders", "keys inserted into the skip list are distinct (documented REQUIRES)"},
 			}
 		},
